@@ -114,7 +114,11 @@ func typeName(t types.Type) string {
 	case *types.Named:
 		n := t.Obj().Name()
 		if t.Obj().Pkg() != nil {
-			n = t.Obj().Pkg().Name() + "_" + n
+			pn := t.Obj().Pkg().Name()
+			if strings.Contains(t.Obj().Pkg().Path(), "internal/") {
+				pn = "internal_" + pn // e.g. internal/sync.Mutex vs sync.Mutex
+			}
+			n = pn + "_" + n
 		}
 		if ta := t.TypeArgs(); ta != nil && ta.Len() > 0 {
 			for i := 0; i < ta.Len(); i++ {
